@@ -187,6 +187,12 @@ func (idx *IVFPQIndex) Train(vectors []VectorNode) error {
 		return fmt.Errorf("need at least %d vectors for training", idx.nlist*10)
 	}
 
+	// Each PQ codebook needs Ksub codewords, and k-means cannot produce more
+	// centroids than it is given vectors
+	if len(vectors) < idx.Ksub {
+		return fmt.Errorf("need at least %d vectors for training", idx.Ksub)
+	}
+
 	// Validate dimensionality
 	for _, v := range vectors {
 		if len(v.Vector()) != idx.dim {
